@@ -127,6 +127,10 @@ func (os *ObjectStream) decode() error {
 	// Parse the header: N pairs of (objNum offset)
 	// The header is plain text integers separated by whitespace
 	if err := os.parseHeader(); err != nil {
+		// Leave no half-parsed state behind: a repeated lookup must fail the same way
+		// instead of continuing with the offsets read before the error.
+		os.decoded = nil
+		os.offsets = nil
 		return fmt.Errorf("failed to parse object stream header: %w", err)
 	}
 
